@@ -128,33 +128,66 @@ func c11Scenario(c c11Case) *vsched.Scenario {
 			st = &c11State{autoconf: c.Autoconf, cancel: func() { vsched.Obs("cancel", ""); cancel() }}
 			initial = c.Autoconf
 			nconn, nlookup, round := 0, 0, 0
+			// The real lookupInterface and checkInterface run (they classify what the system
+			// answers); net.InterfaceByName and the address listing are the scripted questions.
+			noSuch := func() error {
+				return &net.OpError{Op: "route", Net: "ip+net", Err: errors.New("no such network interface")}
+			}
+			VerifSetInterfaceByName(func(name string) (*net.Interface, error) {
+				n := nlookup
+				nlookup++
+				vsched.Obs("attempt", "%d", n)
+				up := &net.Interface{Index: 1, Name: name, Flags: net.FlagUp | net.FlagMulticast}
+				if c.Script == "fail49" || c.Script == "fail50" {
+					limit := 49
+					if c.Script == "fail50" {
+						limit = 1000
+					}
+					if n <= limit {
+						return nil, noSuch()
+					}
+					return up, nil
+				}
+				switch ask(st, "lookup", "ok", "no-such", "down", "op-other", "other") {
+				case "no-such":
+					return nil, noSuch()
+				case "down":
+					return &net.Interface{Index: 1, Name: name, Flags: net.FlagMulticast}, nil
+				case "op-other":
+					return nil, &net.OpError{Op: "route", Net: "ip+net", Err: errors.New("permission denied")}
+				case "other":
+					return nil, errOther
+				}
+				return up, nil
+			})
+			ipn := func(s string) net.Addr {
+				ip, n, err := net.ParseCIDR(s)
+				if err != nil {
+					panic(err)
+				}
+				n.IP = ip
+				return n
+			}
 			VerifSetDialSeams(
-				func(name string) (*net.Interface, error) {
-					n := nlookup
-					nlookup++
-					vsched.Obs("attempt", "%d", n)
-					if c.Script == "fail49" || c.Script == "fail50" {
-						limit := 49
-						if c.Script == "fail50" {
-							limit = 1000
+				func(name string) (*net.Interface, error) { return lookupInterface(name) },
+				func(ifi *net.Interface, _ func() ([]net.Addr, error)) error {
+					return checkInterface(ifi, func() ([]net.Addr, error) {
+						if ifi.Flags&net.FlagUp == 0 || c.Script != "" {
+							return []net.Addr{ipn("fe80::1/64")}, nil
 						}
-						if n >= 1 && n <= limit {
-							return nil, fmt.Errorf("interface %q does not exist: %w", name, ErrLinkNotReady)
+						switch ask(st, "addrs", "ll", "gua-only", "v4-only", "none", "error") {
+						case "gua-only":
+							return []net.Addr{ipn("2001:db8::1/64")}, nil
+						case "v4-only":
+							return []net.Addr{ipn("192.0.2.1/24"), &net.IPAddr{IP: net.ParseIP("fe80::9")}}, nil
+						case "none":
+							return nil, nil
+						case "error":
+							return nil, errOther
 						}
-						if n == 0 {
-							return nil, fmt.Errorf("not yet: %w", ErrLinkNotReady)
-						}
-						return &net.Interface{Index: 1, Name: name}, nil
-					}
-					switch ask(st, "lookup", "ok", "not-ready", "other") {
-					case "not-ready":
-						return nil, fmt.Errorf("interface %q does not exist: %w", name, ErrLinkNotReady)
-					case "other":
-						return nil, errOther
-					}
-					return &net.Interface{Index: 1, Name: name}, nil
+						return []net.Addr{ipn("192.0.2.1/24"), ipn("2001:db8::1/64"), ipn("fe80::1/64")}, nil
+					})
 				},
-				func(*net.Interface, func() ([]net.Addr, error)) error { return nil },
 				func(*net.Interface) (VerifNDPConn, netip.Addr, error) {
 					if c.Script == "" {
 						switch ask(st, "dialNDP", "ok", "einval", "eperm", "other") {
@@ -175,6 +208,7 @@ func c11Scenario(c c11Case) *vsched.Scenario {
 			d := NewDialer("eth0", st, c.Mode, log.New(io.Discard, "", 0))
 			x.Spawn("dial", func() {
 				defer VerifSetDialSeams(nil, nil, nil)
+				defer VerifSetInterfaceByName(nil)
 				err := d.Dial(ctx, func(ctx context.Context, dctx *DialContext) error {
 					round++
 					vsched.Obs("task", "round=%d conn=%d", round, dctx.Conn.(*c11Conn).id)
@@ -223,11 +257,11 @@ func c11Check(c c11Case, x *vsched.Exec, initial bool, st *c11State, retd bool, 
 		out = append(out, [2]string{sig, fmt.Sprintf(format, args...)})
 	}
 	if x.Failure != "" {
-		bad("C11:"+x.FailKind, "%s", x.Failure)
+		bad("Dial:"+x.FailKind, "%s", x.Failure)
 		return out
 	}
 	if !retd {
-		bad("C11:dial-did-not-return", "Dial did not return")
+		bad("Dial:did-not-return", "Dial did not return")
 		return out
 	}
 	// --- C11: cleanup exactly once, before the next open / return; sysctl discipline.
@@ -376,6 +410,51 @@ func c11Check(c c11Case, x *vsched.Exec, initial bool, st *c11State, retd bool, 
 		}
 	}
 
+	// --- C10 part 1: classification. After a recoverable cause (interface missing, down or
+	// without a link-local address; a non-permission system call error; a link change)
+	// the next thing Dial does is dial again; after any other failure it returns an error
+	// without dialling again. (Skipped from a cancellation on: then a prompt nil is right.
+	// A cleanup failure in between legitimately turns a re-dial into an error return.)
+	recoverable := map[string]bool{"lookup=no-such": true, "lookup=down": true, "addrs=gua-only": true, "addrs=v4-only": true, "addrs=none": true,
+		"dialNDP=einval": true, "task=link-change": true, "task=syscall": true}
+	fatal := map[string]bool{"lookup=op-other": true, "lookup=other": true, "addrs=error": true, "dialNDP=eperm": true, "dialNDP=other": true,
+		"task=permission": true, "task=other": true}
+	// What decides is the cause that tore the task down (or failed the very first dial): a
+	// failure of a re-dial *inside* a back-off loop that is not itself recoverable is a
+	// don't-care (the statement bounds the loop, it does not say which in-loop failures end it).
+	if c.Script == "" {
+		pending, nattempt, inLoop := "", 0, false
+	classify:
+		for _, e := range x.Log {
+			switch e.Kind {
+			case "cancel":
+				break classify
+			case "task":
+				inLoop = false // the dial succeeded completely: the task runs
+			case "answer":
+				if recoverable[e.Detail] || (fatal[e.Detail] && !inLoop) {
+					pending = e.Detail
+				}
+			case "attempt":
+				nattempt++
+				if fatal[pending] {
+					bad("C10:classification:retried-fatal", "after %q (not a recoverable cause) the interface was dialled again", pending)
+				}
+				if pending != "" {
+					inLoop = true
+				}
+				pending = ""
+			case "returned":
+				if recoverable[pending] && nattempt <= 50 && !strings.Contains(e.Detail, "failed to clean up") {
+					bad("C10:classification:gave-up-recoverable", "after %q (a recoverable cause) Dial returned %s instead of dialling again", pending, e.Detail)
+				}
+				if fatal[pending] && e.Detail == "<nil>" {
+					bad("C10:classification:fatal-not-reported", "after %q Dial returned nil", pending)
+				}
+			}
+		}
+	}
+
 	// --- C10 part 1: policy. Back-off between consecutive attempts of one retry loop.
 	k := 0
 	for i := range attempts {
@@ -430,7 +509,7 @@ func c11Check(c c11Case, x *vsched.Exec, initial bool, st *c11State, retd bool, 
 func TestVerifC11(t *testing.T) {
 	r := ev.Begin("C11", "envdfs")
 	defer r.End(t)
-	r.Rule = "executions = every sequence of environment answers with at most K non-default answers, asked by the real Dialer.Dial -> init -> dial() -> setAutoconf -> task -> done -> restore over fakes: interface lookup {ok, not-ready, other}, dialNDP {ok, EINVAL, EPERM, other}, autoconf get/disable/restore {ok, EPERM, ENOENT, other}, task outcome {link change, nil, syscall, permission, other, wait for cancel}, plus 'cancel the context now' at every question; x mode {advertise, monitor} x initial autoconf {on, off} x default re-dial rounds {1,2,3}; plus the scripted lines '49 failures then ok' and '50 failures'; oracle: invariants over the call log (cleanup exactly once before the next open / return, sysctl written only while a connection is held, restored to the value read at that open on every exit path, restore errors other than EPERM/ENOENT reported, monitor never touches it) and the dial policy (back-off 0,250ms,...<=3s in virtual time, <=50 retries, prompt nil on cancel)"
+	r.Rule = "executions = every sequence of environment answers with at most K non-default answers, asked by the real Dialer.Dial -> init -> dial() -> setAutoconf -> task -> done -> restore over fakes: net.InterfaceByName under the real lookupInterface {ok, no such interface, down, other OpError, other}, address listing under the real checkInterface {with link-local, global only, IPv4 only, none, error}, dialNDP {ok, EINVAL, EPERM, other}, autoconf get/disable/restore {ok, EPERM, ENOENT, other}, task outcome {link change, nil, syscall, permission, other, wait for cancel}, plus 'cancel the context now' at every question; x mode {advertise, monitor} x initial autoconf {on, off} x default re-dial rounds {1,2,3}; plus the scripted lines '49 failures then ok' and '50 failures'; oracle: invariants over the call log (cleanup exactly once before the next open / return, sysctl written only while a connection is held, restored to the value read at that open on every exit path, restore errors other than EPERM/ENOENT reported, monitor never touches it) and the dial policy (classification: recoverable causes are re-dialled, others returned as errors; back-off 0,250ms,...<=3s in virtual time, <=50 retries, prompt nil on cancel)"
 	bound := 2
 	if r.Thorough() {
 		bound = 3
